@@ -156,6 +156,7 @@ def rules_for(pid):
             ("GATE-ORDER", lambda c: ROPS.gate_order_rule(c.P, c.E, c.H), 4),
             ("WIRE", lambda c: RX.wire_rule(c.P, c.E, c.H, lambda m: m in COMBINATORS), 20),
             ("OPSEM-combine", lambda c: _only(ROPS.opsem_rule(c.P, c.E, c.H), ("operators::sequence_equal::SequenceEqual", "operators::combine_latest::CombineLatest")), 2),
+            ("H-error", lambda c: RH.h_error(c.P, c.E, c.H, scope_c03), 10),
         ],
         "C04": [
             ("H-error", lambda c: RH.h_error(c.P, c.E, c.H), 26),
@@ -247,6 +248,7 @@ def rules_for(pid):
             ("X-blocking-acq", _xacq("schedulers::"), 4),
             ("CLONE-SHARES", _xclone(2, "schedulers::"), 2),
             ("INIT", lambda c: RX.init_rule(c.P, c.E, ("schedulers::",)), 1),
+            ("Q14", lambda c: RS.sched_factory_fresh(c.P, c.E), 1),
         ],
         "C17": [
             ("K-self-cycle", lambda c: RC17.k_self_cycle(c.P, c.E), 5),
@@ -331,6 +333,7 @@ def rules_for(pid):
             ("CLONE-SHARES", _xclone(3, "subjects::"), 3),
             ("INIT", lambda c: RX.init_rule(c.P, c.E, ("subjects::",)), 2),
             ("O-slot-calls", lambda c: RO.o_slot_calls(c.P, c.E), 1),
+            ("O-typestate", lambda c: RO.o_typestate(c.P, c.E, ("live delivery lost",)), 1),
         ],
         "C13": [
             ("P", lambda c: RJ.p_rules(c.P, c.E), 6),
@@ -365,6 +368,7 @@ def rules_for(pid):
             ("P-connect", lambda c: _only(RJ.p_rules(c.P, c.E), ("P2", "P3", "P6")), 2),
             ("H-register-first", lambda c: RH.h_register_first(c.P, c.E, c.H), 9),
             ("H-early-stop", lambda c: RH.h_early_stop(c.P, c.E, c.H), 24),
+            ("Q14", lambda c: RS.sched_factory_fresh(c.P, c.E), 1),
         ],
         "C19": [
             ("A19b", lambda c: RJ.a19b(c.P, c.E), 3),
